@@ -172,6 +172,42 @@ fn draw_op(r: &mut Rng, nr: usize, nc: usize, grow: bool) -> Op {
     }
 }
 
+/// draw an operation for a matrix WITHOUT elements (0 x 0, 0 x c or r x 0): mostly requests the code accepts there
+/// (the 0 x 0 reshape, concatenation with an empty operand, repetition, the diagonal, an inferred dimension), sometimes
+/// one it must refuse (every other zero dimension, a transposition, an index)
+fn draw_op_empty(r: &mut Rng, nr: usize, nc: usize) -> Op {
+    let likely = r.coin(0.8);
+    let val = |r: &mut Rng| r.small_int(99);
+    let k = 1 + r.below(3) as i32;
+    let shape = |r: &mut Rng| -> (i32, i32) {
+        if likely { match r.below(8) { 0..=4 => (0, 0), 5 => (-1, k), 6 => (k, -1), _ => (0, 0) } }
+        else { *r.pick(&[(0, k), (k, 0), (1, 1), (-1, -1), (-2, 0), (0, -1), (-1, 0), (0, -2), (k, k), (1, 0), (0, 1)]) }
+    };
+    match r.below(if likely { 12 } else { NKINDS }) {
+        0 => { let (a, b) = shape(r); Op::ReshapeMut(a, b) }
+        1 => { let (a, b) = shape(r); Op::Reshape(a, b) }
+        2 => { let (a, b) = shape(r); Op::ToVecReshape(a, b) }
+        3 => Op::Hrepeat(r.below(4) as usize),
+        4 => Op::Vrepeat(r.below(4) as usize),
+        5 => Op::Diag,
+        6 => { // hcat: an operand with the same number of rows (r x k on r x 0 gives r x k: back to a positive shape)
+               if nr == 0 { let (a, b) = *r.pick(&[(0, 0), (0, 0), (-1, k), (k, -1)]); Op::Hcat(vec![], a, b) }
+               else { let d: Vec<f64> = (0..nr * k as usize).map(|_| val(r)).collect(); let (a, b) = *r.pick(&[(nr as i32, k), (nr as i32, -1), (-1, k)]); Op::Hcat(d, a, b) } }
+        7 => { // vcat: an operand with the same number of columns (k x c under 0 x c gives k x c)
+               if nc == 0 { let (a, b) = *r.pick(&[(0, 0), (0, 0), (-1, k), (k, -1)]); Op::Vcat(vec![], a, b) }
+               else { let d: Vec<f64> = (0..nc * k as usize).map(|_| val(r)).collect(); let (a, b) = *r.pick(&[(k, nc as i32), (-1, nc as i32), (k, -1)]); Op::Vcat(d, a, b) } }
+        8 => Op::GetCol(r.below(nc.max(1) as u64 + 1) as usize),
+        9 => Op::RowSlice(r.below(nr.max(1) as u64 + 1) as usize),
+        10 => Op::ApplyCol(r.below(nc.max(1) as u64 + 1) as usize, r.below(3) as u8),
+        11 => if nr > 0 { Op::TMut } else { Op::GetRow(r.below(2) as usize) },
+        12 => Op::T, 13 => Op::TMut, 14 => Op::ApplyRow(r.below(nr.max(1) as u64 + 1) as usize, r.below(3) as u8),
+        15 => Op::FlatIdx(r.below(2) as usize), 16 => Op::FlatSet(r.below(2) as usize, val(r)),
+        17 => Op::Idx(r.below(nr.max(1) as u64 + 1) as usize, r.below(nc.max(1) as u64 + 1) as usize),
+        18 => Op::IdxSet(r.below(nr.max(1) as u64 + 1) as usize, r.below(nc.max(1) as u64 + 1) as usize, val(r)),
+        19 => Op::ToVecToMatrix, 20 => Op::RowToCol, _ => Op::ColToRow,
+    }
+}
+
 fn start_matrix(r: &mut Rng, maxd: u64) -> (Vec<f64>, usize, usize) {
     if r.coin(0.12) {
         // square and symmetric up to the tolerance of `is_symmetric` but NOT exactly: mirrored entries one ulp apart, or an infinite entry facing a
@@ -218,6 +254,32 @@ pub fn gen(tier: &str, seed: u64, outdir: &str) {
         }
         cs.push(app("CProg", vec![fl(&d), Tm::Z(a as i64), Tm::Z(b as i64), Tm::L(ops), fl(&trace), Tm::B(panicked)]),
                 if panicked { "program/ends-in-panic" } else { "program/completes" }, changes >= 2);
+    }
+    // 1b. programs that start from the empty matrix (Matrix::new([], 0, 0) = Matrix::empty()) or from a degenerate
+    //     0 x c / r x 0 matrix (Matrix::new([], -1, c) / ([], r, -1)), and may come back to a positive shape through a
+    //     concatenation; compared with the model alone (case CProgE)
+    let nprog_e = if thorough { 2500 } else { 240 };
+    for p in 0..nprog_e {
+        let k = 1 + r.below(3) as i32;
+        let (a, b) = match p % 5 { 0 | 1 | 2 => (0, 0), 3 => (-1, k), _ => (k, -1) };
+        let d: Vec<f64> = vec![];
+        let len = 1 + r.below(14) as usize;
+        let mut m = Matrix::new(d.clone(), a, b);
+        if p % 10 == 0 { m = Matrix::empty(); }
+        let mut trace = state_vec(&m);
+        let mut ops = vec![]; let mut panicked = false; let mut changes = 0;
+        for _ in 0..len {
+            let op = if m.nrows * m.ncols == 0 { draw_op_empty(&mut r, m.nrows, m.ncols) } else { draw_op(&mut r, m.nrows, m.ncols, m.nrows * m.ncols <= 24) };
+            ops.push(op.term());
+            let res = catch(|| { let mut mm = m.clone(); let out = op.run(&mut mm); (mm, out) });
+            match res {
+                Ok((mm, out)) => { if op.changes_state() { changes += 1; } m = mm; trace.extend(state_vec(&m)); trace.extend(out); }
+                Err(_) => { panicked = true; break; }
+            }
+        }
+        let (a, b) = if p % 10 == 0 { (0, 0) } else { (a, b) };
+        cs.push(app("CProgE", vec![fl(&d), Tm::Z(a as i64), Tm::Z(b as i64), Tm::L(ops), fl(&trace), Tm::B(panicked)]),
+                if panicked { "program-from-empty/ends-in-panic" } else { "program-from-empty/completes" }, changes >= 2);
     }
     // 2. Matrix::new / Vector::reshape on arbitrary (length, rows, cols) incl. impossible shapes
     let nnew = if thorough { 3000 } else { 300 };
